@@ -39,19 +39,28 @@ def gen_case(rng, malformed=False, maxops=25):
     ops = []
     entered = []
     for _ in range(rng.randint(1, maxops)):
-        vid = len(views) - 1 if rng.random() < 0.45 else rng.randrange(len(views))
+        held = [j for j, x in enumerate(views) if not x.get("dropped")]
+        vid = held[-1] if rng.random() < 0.45 else rng.choice(held)
         if views[vid]["n"] == 0 and rng.random() < 0.6:        # prefer views that can transfer something
-            vid = rng.randrange(len(views))
+            vid = rng.choice(held)
         v = views[vid]
         n = v["n"]
         k = rng.choices(["seek", "read", "write", "slice", "tell", "len", "address", "flush", "close", "free",
                          "enter", "exit"],
-                        [22, 18, 18, 13, 5, 4, 3, 2, 1.5, 0.6, 2.0, 0.8])[0]
+                        [22, 18, 18, 13, 5, 4, 3, 2, 1.5, 0.9, 2.0, 0.8])[0]
         if entered and rng.random() < 0.12:
             k, vid = "exit", rng.choice(entered)
             v = views[vid]
             n = v["n"]
         mode = rng.choices(["", "f", "s"], [86, 8, 6])[0] if k in ("read", "write") else ""
+        if k == "free" and views[0].get("dropped"):
+            k = "tell"
+        if len(held) > 1 and vid not in entered and rng.random() < 0.035:
+            # the caller forgets a view (often the root or an intermediate slice) and carries on with the others
+            vid = rng.choice([j for j in held[:-1] if j not in entered] or [vid])
+            views[vid]["dropped"] = True
+            ops.append([vid, "drop"])
+            continue
         if k == "seek":
             wh = rng.choice([None, 0, 0, 1, 1, 2, 2, 2])
             if malformed and rng.random() < 0.3:
@@ -80,8 +89,11 @@ def gen_case(rng, malformed=False, maxops=25):
                 s, e, _ = slice(a, b).indices(n)
                 views.append(dict(n=max(0, e - s), closed=False, depth=v["depth"] + 1))
         elif k == "free":
-            ops.append(["free"])
-            freed = True
+            if rng.random() < 0.3 and not freed:
+                ops.append(["ffree"])                              # sdram_free raises: nothing is freed
+            else:
+                ops.append(["free"])
+                freed = True
         elif k == "enter":
             ops.append([vid, "enter"])
             entered.append(vid)
@@ -135,6 +147,8 @@ def enum_cases():
 def coq_op(o):
     if o[0] == "free":
         return "OFree"
+    if o[0] == "ffree":
+        return "OFreeFault"
     k = o[1]
     if k == "seek":
         vo = "Seek %s %s" % (zlit(o[2]), zlit(0 if o[3] is None else o[3]))
@@ -150,9 +164,15 @@ def coq_op(o):
     return "OView %d (%s)" % (o[0], vo)
 
 
+def is_drop(o):
+    """the caller dropping its reference to a view: not an operation of the views (the model has no such notion)"""
+    return len(o) > 1 and o[1] == "drop"
+
+
 def coq_case(c):
     return "observe_case %s %s %s %s %s" % (zlit(c["start"]), zlit(c["end"]), zlit(c["lo"]),
-                                            vlist(str(b) for b in c["mem"]), vlist(coq_op(o) for o in c["ops"]))
+                                            vlist(str(b) for b in c["mem"]),
+                                            vlist(coq_op(o) for o in c["ops"] if not is_drop(o)))
 
 
 def canon_model(v):
@@ -177,9 +197,11 @@ def canon_model(v):
     return [out, list(final)]
 
 
-def canon_impl(o):
+def canon_impl(o, ops):
     out = []
-    for res, nw, calls, probe, att in o[1]:
+    for op, (res, nw, calls, probe, att) in zip(ops, o[1]):
+        if is_drop(op):
+            continue
         r = res[:3] if res[0] == "view" else (["other"] if res[0] == "other" else res)
         out.append([r, nw, calls, probe, att])
     return [out, o[2]]
@@ -205,7 +227,16 @@ def oracle(c, out):
 
     for i, (o, (res, nwarn, calls, probe, att)) in enumerate(zip(c["ops"], out[1])):
         if res[0] == "noview":
+            if len(o) > 5 and o[1] == "slice" and o[5] is not None:
+                views.append(None)      # a slice of a view that was never made: never made either
             continue
+        if o[0] == "ffree":
+            # sdram_free raised: the block is still allocated, so nothing about the views changes
+            for cl in calls:
+                fail("free-accesses-memory", "free() issued %r" % (cl,), i)
+            continue
+        if is_drop(o):
+            continue                    # forgetting a view is not an operation: the other views carry on
         if o[0] == "free":
             if not freed and res[0] != "none":
                 fail("free-fails", "free() of a live allocation gave %r" % (res,), i)
@@ -219,6 +250,8 @@ def oracle(c, out):
             kind, mode = kind[1:], kind[0]      # the same method, with the environment misbehaving
         v = views[vid]
         if v is None:
+            if kind == "slice" and len(o) > 5 and o[5] is not None:
+                views.append(None)
             continue
         n = v["hi"] - v["lo"]
         vs, ve = base + v["lo"], base + v["hi"]
@@ -247,6 +280,15 @@ def oracle(c, out):
             continue                            # (the generator numbers no view for a slice of a dead view)
         pos = v["pos"]
         label = kind
+        if res[0] == "other" or res == ["err", 0]:
+            # an open view of an allocated block refuses to work: nothing was closed, nothing was freed
+            fail("fails-without-close-or-free", "%s on an open view of an allocation that was not freed raised %s"
+                 % (kind, "OSError" if res[0] == "err" else res[1]), i)
+            if kind == "slice" and len(o) > 5 and o[5] is not None:
+                views.append(None)
+            if kind in ("close", "exit"):
+                v["closed"] = True
+            continue
         if mode == "f" and att:
             # the transport failed during the transfer: nothing was transferred, so the position stays
             # and nothing may be reported as transferred
@@ -356,7 +398,9 @@ def features(c, out):
         if calls and calls[0][0] in "rw":
             ntransfer += 1
         if att:
-            f.add("transport-fault")
+            f.add("free-fault" if att[0][0] == "f" else "transport-fault")
+        if is_drop(o):
+            f.add("view-dropped")
         if res == ["err", 3]:
             f.add("truncation-raised")
         if len(o) > 1 and o[1] == "exit" and res == ["none"]:
@@ -416,7 +460,7 @@ def run(chk, args):
             chk.count("len:%s" % ("0" if c["end"] <= c["start"] else "1-8" if c["end"] - c["start"] <= 8 else "9-40"))
             chk.count("ops", len(c["ops"]))
             for op in c["ops"]:
-                chk.count("op:" + (op[0] if op[0] == "free" else op[1]))
+                chk.count("op:" + (op[0] if isinstance(op[0], str) else op[1]))
             chk.note_case(c, nt >= 1 and ("slice" in f or any(len(op) > 1 and op[1] == "seek" for op in c["ops"])))
         else:
             chk.note_case(c, False)
@@ -444,11 +488,13 @@ def run(chk, args):
                     continue
                 chk.traces_validated += 1
                 nops += len(c["ops"])
-                cm, ci = canon_model(v), canon_impl(o)
+                cm, ci = canon_model(v), canon_impl(o, c["ops"])
                 if cm != ci:
                     j = next((j for j, (x, y) in enumerate(zip(cm[0], ci[0])) if x != y), None)
+                    kept = [op for op in c["ops"] if not is_drop(op)]
                     what = ("final memory differs" if j is None else
-                            "op %d %r: model %r, implementation %r" % (j, c["ops"][j], cm[0][j], ci[0][j]))
+                            "op %r (number %d not counting drops): model %r, implementation %r" % (
+                                kept[j], j, cm[0][j], ci[0][j]))
                     chk.disagree("MemoryIO history: " + what, dict(case=c, observed=o))
                     break
             else:
